@@ -128,12 +128,21 @@ class Ctx:
         n = idx.get(id(node))
         return n
 
+    def entry_reaches(self, f: FuncInfo, name: str, at: ast.AST) -> bool:
+        """True if the function entry reaches the statement containing ``at`` on a path without any assignment to ``name``
+        (i.e. the parameter's / closure's initial value may still be the current one there)."""
+        self.reaching_defs(f, name, at)
+        return self._entry_flag.get((f.qualname, name, self.stmt_containing(f, at)), True)
+
     def reaching_defs(self, f: FuncInfo, name: str, at: ast.AST) -> List[ast.AST]:
         """Assignments to local ``name`` that may reach the statement containing ``at`` (CFG-backward search)."""
         cfg = self.cfg(f)
         start = self.stmt_containing(f, at)
+        if not hasattr(self, "_entry_flag"):
+            self._entry_flag = {}
         if start is None:
             return []
+        self._entry_flag[(f.qualname, name, start)] = False
         out: List[ast.AST] = []
         seen = set()
         st = [p for p, _ in cfg.pred[start]]
@@ -154,6 +163,8 @@ class Ctx:
             if hit:
                 out.append(a)
                 continue
+            if n == cfg.entry:
+                self._entry_flag[(f.qualname, name, start)] = True
             st.extend(p for p, _ in cfg.pred[n])
         return out
 
